@@ -179,6 +179,28 @@ theorem foldl_qcStep (pairs : List (Fragment × Fragment)) (s : Int × Int × Li
         · simp [hv]
         · simp [hv]; omega
 
+/-- the three counts `qcPasses` looks at, named (so that proofs can treat them as opaque numbers) -/
+def abutCount (subs : List Fragment) : Nat :=
+  ((consPairs (stableSort lexLe subs)).filter (fun p => p.1.abuts p.2)).length
+def overCount (subs : List Fragment) : Nat :=
+  ((consPairs (stableSort lexLe subs)).filter (fun p => p.1.overlaps p.2)).length
+def gapCount (subs : List Fragment) : Nat :=
+  ((consPairs (stableSort lexLe subs)).filter
+    (fun p => match p.1.gapBetween p.2 with | some g => g ≠ 0 | none => false)).length
+
+theorem qcPasses_eq (orig : Fragment) (subs : List Fragment) :
+    qcPasses orig subs =
+      (decide (orig.length = sumInts (subs.map Fragment.length)) && overCount subs == 0 &&
+        (abutCount subs : Int) == (subs.length : Int) - 1 && gapCount subs == 0) := rfl
+
+/-- the state after the first loop of `qc_sub_fragments`, started from `(0, 0, [])` -/
+theorem qc_loop_counts (subs : List Fragment) :
+    let r := (consPairs (stableSort lexLe subs)).foldl (fun s p => qcStep p.1 p.2 s) (0, 0, [])
+    r.1 = (abutCount subs : Int) ∧ r.2.1 = (overCount subs : Int) ∧ r.2.2.length = gapCount subs := by
+  obtain ⟨h1, h2, h3⟩ := foldl_qcStep (consPairs (stableSort lexLe subs)) (0, 0, [])
+  simp only [Int.zero_add, List.length_nil, Nat.zero_add] at h1 h2 h3
+  exact ⟨h1, h2, h3⟩
+
 /-- the second loop (`for … in pairs_with_gaps: msg += …`) -/
 theorem foldl_const_true {α : Type} (xs : List α) (m : Bool) :
     xs.foldl (fun (_ : Bool) (_ : α) => true) m = (m || !xs.isEmpty) := by
